@@ -229,7 +229,8 @@ def main(chk: Check) -> None:
     bjobs: T.List[T.Dict[str, T.Any]] = []
     for k in range(n_random):
         r2 = random.Random(chk.seed * 7919 + k)
-        p = projgen.random_project(r2, n_targets=r2.randint(3, 14), installs=False, options=False)
+        p = projgen.random_project(r2, n_targets=r2.randint(3, 14), installs=False, options=False, custom_inputs=True,
+                                   alias_runs=True)
         bjobs.append({'id': f'B{k}', 'kind': 'proj', 'p': p})
     bjobs.append({'id': 'P0', 'kind': 'proj', 'p': pipe_name_project(), 'tag': 'target-name-with-pipe'})
     bjobs.append({'id': 'O0', 'kind': 'proj', 'p': odd_names_project('mirror')})
